@@ -52,13 +52,13 @@ func Build(filename, waSrc string, marks map[string]int) (wasm, fset, wat []byte
 // is run once per entry of Poison, each mode on its own module instance (case i runs in all
 // modes before case i+1 starts).
 type Job struct {
-	Src          string
-	N            int
-	Poison       []bool
-	Record       bool // keep census records (KindIter, KindRun)
-	ClipOut      int  // > 0: keep only the last ClipOut bytes of each case's output
-	CaseCPUS     int  // watchdog per call: CPU-seconds of the worker process (default 20)
-	MaxEvents    int64
+	Src       string
+	N         int
+	Poison    []bool
+	Record    bool // keep census records (KindIter, KindRun)
+	ClipOut   int  // > 0: keep only the last ClipOut bytes of each case's output
+	CaseCPUS  int  // watchdog per call: CPU-seconds of the worker process (default 20)
+	MaxEvents int64
 }
 
 type JobResult struct {
